@@ -84,8 +84,9 @@ func startListener() error {
 }
 
 func runListener(rec *vkit.Recorder, c *listenerCase) []vkit.Violation {
+	prop := rec.Prop
 	if err := startListener(); err != nil {
-		return []vkit.Violation{{Key: "C12/harness", Msg: err.Error()}}
+		return []vkit.Violation{{Key: prop + "/harness", Msg: err.Error()}}
 	}
 	n := listener.n
 	var vs []vkit.Violation
@@ -112,7 +113,7 @@ func runListener(rec *vkit.Recorder, c *listenerCase) []vkit.Violation {
 		targets["ja"] = []*target.Target{{Hash: 7, Labels: lbls("__address__", "h7:80", "__scheme__", "http", "__metrics_path__", c.Path)}}
 	}
 	if code, _ := n.post("/api/v1/shard/targets/", &shard.UpdateTargetsRequest{Targets: targets}); code != 200 {
-		return []vkit.Violation{{Key: "C12/harness", Msg: "update rejected"}}
+		return []vkit.Violation{{Key: prop + "/harness", Msg: "update rejected"}}
 	}
 	reqURL := proxyURL("ja", 7, "h7:80", c.Path, c.Query)
 	want := "http://h7:80" + c.Path
@@ -141,7 +142,7 @@ func runListener(rec *vkit.Recorder, c *listenerCase) []vkit.Violation {
 	var net1 answer
 	resp, err := cli.Get(reqURL)
 	if err != nil {
-		add("C12/listener/request-fails", "GET %s through the proxy listener: %v", reqURL, err)
+		add(prop+"/listener/request-fails", "GET %s through the proxy listener: %v", reqURL, err)
 		return vs
 	}
 	net1.code = resp.StatusCode
@@ -161,19 +162,19 @@ func runListener(rec *vkit.Recorder, c *listenerCase) []vkit.Violation {
 		ans answer
 	}{{"listener", net1}, {"direct", dir1}} {
 		if len(a.ans.seen) != 1 || a.ans.seen[0] != want {
-			add("C12/"+a.how+"/requested-url", "Prometheus asked for %s (real URL %s); the target was asked for %v (answer %d %q)", reqURL, want, a.ans.seen, a.ans.code, a.ans.body)
+			add(prop+"/"+a.how+"/requested-url", "Prometheus asked for %s (real URL %s); the target was asked for %v (answer %d %q)", reqURL, want, a.ans.seen, a.ans.code, a.ans.body)
 			continue
 		}
 		if ok {
 			if a.ans.code != 200 {
-				add("C12/"+a.how+"/status", "successful scrape of %s answered %d %q", want, a.ans.code, a.ans.body)
+				add(prop+"/"+a.how+"/status", "successful scrape of %s answered %d %q", want, a.ans.code, a.ans.body)
 			} else if !bytes.Equal(a.ans.body, payload) {
-				add("C12/"+a.how+"/bytes-differ", "forwarded %d bytes, target served %d", len(a.ans.body), len(payload))
+				add(prop+"/"+a.how+"/bytes-differ", "forwarded %d bytes, target served %d", len(a.ans.body), len(payload))
 			} else if a.ans.ctype != c.CType {
-				add("C12/"+a.how+"/content-type", "content type %q, target's is %q", a.ans.ctype, c.CType)
+				add(prop+"/"+a.how+"/content-type", "content type %q, target's is %q", a.ans.ctype, c.CType)
 			}
 		} else if a.ans.code >= 200 && a.ans.code < 300 {
-			add("C12/"+a.how+"/failed-scrape-answered-2xx", "target answered %d, the proxy answered %d", c.Code, a.ans.code)
+			add(prop+"/"+a.how+"/failed-scrape-answered-2xx", "target answered %d, the proxy answered %d", c.Code, a.ans.code)
 		}
 	}
 	unclean := strings.Contains(c.Path, "//") || strings.Contains(c.Path, "/./") || strings.Contains(c.Path, "/../") || strings.HasSuffix(c.Path, "/.") || strings.HasSuffix(c.Path, "/..")
@@ -208,15 +209,23 @@ func genListener(t *rapid.T) *listenerCase {
 	return c
 }
 
-func TestC12Listener(t *testing.T) {
-	rec := recC12()
+func listenerTest(t *testing.T, rec *vkit.Recorder, test string) {
 	rapid.Check(t, func(t *rapid.T) {
 		c := genListener(t)
 		if bad := rec.Filter(runListener(rec, c)); len(bad) > 0 {
-			p := vkit.SaveViolation("C12", "TestC12Listener", c, bad, nil)
+			p := vkit.SaveViolation(rec.Prop, test, c, bad, nil)
 			t.Fatalf("%s (replay %s)", bad[0], p)
 		}
 	})
+}
+
+func TestC12Listener(t *testing.T) { listenerTest(t, recC12(), "TestC12Listener") }
+
+// TestC02Listener judges the URL clause of C02 on the same runs: what the sidecar really requests when
+// Prometheus asks through the proxy's listener is the URL a single Prometheus would request.
+func TestC02Listener(t *testing.T) {
+	rec := vkit.Rec("C02", "exploration", "")
+	listenerTest(t, rec, "TestC02Listener")
 }
 
 func replayListener(t *testing.T) {
@@ -228,6 +237,21 @@ func replayListener(t *testing.T) {
 		}
 		if bad := rec.Filter(runListener(rec, &c)); len(bad) > 0 {
 			p := vkit.SaveViolation("C12", "TestC12Listener", &c, bad, nil)
+			t.Fatalf("%s: %s (replay %s)", r.Note, bad[0], p)
+		}
+		rec.Class("replayed-case")
+	}
+}
+
+func TestReplayC02Listener(t *testing.T) {
+	rec := vkit.Rec("C02", "exploration", "")
+	for _, r := range vkit.LoadReplays("C02", "TestC02Listener") {
+		var c listenerCase
+		if err := json.Unmarshal(r.Case, &c); err != nil {
+			t.Fatalf("%s: %v", r.Note, err)
+		}
+		if bad := rec.Filter(runListener(rec, &c)); len(bad) > 0 {
+			p := vkit.SaveViolation("C02", "TestC02Listener", &c, bad, nil)
 			t.Fatalf("%s: %s (replay %s)", r.Note, bad[0], p)
 		}
 		rec.Class("replayed-case")
